@@ -12,6 +12,7 @@ import CfrVerif.Model.Dispatch
 import CfrVerif.Model.Cli
 import CfrVerif.Model.Worklist
 import CfrVerif.Model.Locks
+import CfrVerif.Model.LocksVanilla
 import Std.Data.HashSet
 /-!
 # `cfrmodel` : the model (L1) at `α = Float` behind a line protocol
@@ -763,6 +764,25 @@ def cmd : P String := do
       let cn := Canon.of g
       let draw := drawCanon cn seed.toUInt64
       let passes := externalLockPasses g p draw T 1 (SolveSt.init g) []
+      let canonLock : LockId → LockId
+        | .chance i => .chance (cn.get 0 i)
+        | .player true i => .player true (cn.get 1 i)
+        | .player false i => .player false (cn.get 2 i)
+      let canonEv : LEv → LEv
+        | .acq l => .acq (canonLock l)
+        | .tryAcq l => .tryAcq (canonLock l)
+        | .rel l => .rel (canonLock l)
+      pure (s!"ok {passes.length} " ++ " ".intercalate (passes.map (fun t =>
+        s!"{t.length} " ++ " ".intercalate (t.map (fun e => levStr (canonEv e))))))
+  else if c == "vlocktrace" then
+    withGame fun g => do
+      let m ← tok
+      let p ← pParams
+      let T ← pNat
+      let seed ← pNat
+      let cn := Canon.of g
+      let draw := drawCanon cn seed.toUInt64
+      let passes := vanillaLockPasses g (m == "S") p draw T 1 (SolveSt.init g) []
       let canonLock : LockId → LockId
         | .chance i => .chance (cn.get 0 i)
         | .player true i => .player true (cn.get 1 i)
